@@ -80,3 +80,43 @@ Theorem C11_cursor_matches_node : forall nv nb sl p old, wf_slots nv nb sl -> nt
     nth v (a_last a) None = nth relv (n_prev_v nd) None.
 Proof. exact cursor_matches_node. Qed.
 Print Assumptions C11_cursor_matches_node.
+
+(* ------------------------------------------------------------------------------------------- *)
+(* Navigation: algorithms written against the link interface see exactly what a scan sees.
+   (Model/FastOpsNav.v transcribes the getters, the world-line walks and fill_args_at_p.) *)
+From QmcV Require Import Model.FastOpsNav Proofs.FastOpsNavProofs.
+
+(* following the per-variable successor links from the per-variable head enumerates exactly the
+   operators on that variable, in imaginary-time order, for every string *)
+Theorem C11_world_line_walk_is_scan : forall nv nb sl v, v < nv ->
+  walk_var (build nv nb sl) v = ops_on_var sl v.
+Proof. exact walk_var_is_scan. Qed.
+Print Assumptions C11_world_line_walk_is_scan.
+
+(* following next_p from the first position enumerates exactly the occupied slots *)
+Theorem C11_global_walk_is_scan : forall nv nb sl, walk_p (build nv nb sl) = occupied sl.
+Proof. exact walk_p_is_scan. Qed.
+Print Assumptions C11_global_walk_is_scan.
+
+(* RvbUpdater::constant_ops_on_var on the linked structure = the constant operators a scan finds *)
+Theorem C11_constant_ops_on_var_is_scan : forall nv nb sl v, v < nv ->
+  constant_ops_on_var (build nv nb sl) v
+  = flat_map (fun '(p, _) => match get_op sl p with
+                             | Some o => if o_const o then [p] else []
+                             | None => []
+                             end) (ops_on_var sl v).
+Proof. exact constant_ops_on_var_is_scan. Qed.
+Print Assumptions C11_constant_ops_on_var_is_scan.
+
+Theorem C11_does_var_have_ops_is_scan : forall nv nb sl v, v < nv ->
+  does_var_have_ops (build nv nb sl) v = var_has_ops sl v.
+Proof. exact does_var_have_ops_is_scan. Qed.
+Print Assumptions C11_does_var_have_ops_is_scan.
+
+(* non-vacuity: a string with a two-variable operator between single-site ones *)
+Example C11_ex_walk :
+  let sl := [Some (mkOp [1] 3 [true] [false] true); None; Some (mkOp [0; 1] 0 [true; false] [true; false] false);
+             Some (mkOp [1] 3 [false] [true] true)] in
+  walk_var (build 2 None sl) 1 = [(0, 0); (2, 1); (3, 0)] /\ walk_p (build 2 None sl) = [0; 2; 3]
+  /\ fill_args_at_p (build 2 None sl) 3 = scan_cursor 2 sl 3.
+Proof. vm_compute. repeat split; reflexivity. Qed.
